@@ -22,7 +22,7 @@ out = ["# Independently seeded changes", "",
        "check). None of them is committed in /repo. `sensitivity.sh` re-runs all of them (exit 1 expected from the check).",
        "",
        "Rounds: r1 = first round; r2 = second round, agents were told the two r1 changes and asked for rarer triggers;",
-       "r3 = third round, told the four earlier ones; r4 / r5 = fourth / fifth round, told the six / eight earlier ones; r6 = sixth round, three changes per property (a, b, c), told the ten earlier ones and asked for changes that need a long history, an unusual but legal configuration, a boundary, or two sites that interact; r7 / r8 / r9 = seventh to ninth round, two changes each, told the thirteen / fifteen / seventeen earlier ones; r10 = tenth round, one change per property, told the nineteen (eighteen) earlier ones and asked for an error path, a second use of an object, an unusual configuration or two sites that only fail together. `first run` is the result of the quick check as it was when the",
+       "r3 = third round, told the four earlier ones; r4 / r5 = fourth / fifth round, told the six / eight earlier ones; r6 = sixth round, three changes per property (a, b, c), told the ten earlier ones and asked for changes that need a long history, an unusual but legal configuration, a boundary, or two sites that interact; r7 / r8 / r9 = seventh to ninth round, two changes each, told the thirteen / fifteen / seventeen earlier ones; r10 = tenth round, one change per property, told the nineteen (eighteen) earlier ones and asked for an error path, a second use of an object, an unusual configuration or two sites that only fail together; r11 = eleventh round, one change each for the ten properties whose round-10 change had been caught at once. `first run` is the result of the quick check as it was when the",
        "change came in; `now` the result with the committed machinery; `strengthened with` says what was added to the",
        "check (generator dimension or oracle clause, never a special case for the change) when the first run missed it.",
        "",
@@ -47,6 +47,8 @@ out += ["", "Not kept: C05 round 7 change a (the tick of a time exactly halfway 
         "instead of round-half-up). The property asks for the type's tick and for the TDS layout; which of the two neighbouring ticks",
         "an exact tie goes to is prescribed by neither, both results are within the tick C04 allows, so the change does not break the",
         "property as stated and the checks (rightly) accept it. The agent's demonstration compares with a half-up reference of its own."]
+out += ["", "Not kept: C05 round 11 change a (math.RoundToEven instead of math.Round in MillisecondToFractionalSecond): the same change as C05 round 7 a,",
+        "produced again by an agent that could not know about it (changes that are not kept are not in the list the agents are given); not kept for the same reason."]
 out += ["", "%d changes; %d were missed by the quick check as it was when they came in; %d are missed now." % (len(rows), n["first_missed"], n["now_missed"]), ""]
 open("/verif/seeded/README.md", "w").write("\n".join(out))
 print(out[-2])
